@@ -300,6 +300,18 @@ def run(ctx):
             okk = any(re.match(r"^Add\(Sub\(.*\),1\)$", expr(b, s["rv"]["op"])) for s in stores)
             res.check(okk, "R1.4", "skip>=1|" + b.q, b.where(), "flag_subcmd_skip = (cur_idx - at) + 1 >= 1 in the same block as the seek",
                       "flag_subcmd_skip is not set to (..)+1 >= 1 together with the backward seek: %s" % [expr(b, s["rv"]["op"]) for s in stores])
+        elif b.q.endswith("Parser::parse") and b.kind != "Closure" and any(re.match(r"^V1:self\.flag_subcmd_at$", g) for g in guard_strs(b, c.bb)):
+            # the same step written as `match self.flag_subcmd_at { Some(at) => { seek(-1); skip = ..; true } None => false }` in parse itself
+            nxt = b.calls_to(r"clap_lex::RawArgs::next$")
+            loop_head = nxt[0].bb if nxt else None
+            again = loop_head is not None and c.target is not None and loop_head in b.reachable(c.target)
+            res.check(not again, "R1.4", "seek-then-break|" + b.q, c.where(), "the token is revisited only by the recursive sub-parser (loop exits after the seek)",
+                      "after seeking back the parse loop can read the same token again (possible livelock)")
+            after = b.reachable(c.target if c.target is not None else c.bb)
+            stores = [s_ for i_, s_ in writes_field(b, "flag_subcmd_skip") if i_ in after or i_ == c.bb]
+            okk = any(s_["rv"]["k"] == "use" and re.match(r"^Add\(Sub\(.*\),1\)$", expr(b, s_["rv"]["op"])) for s_ in stores)
+            res.check(okk, "R1.4", "skip>=1|" + b.q, b.where(), "flag_subcmd_skip = (cur_idx - at) + 1 >= 1 together with the seek",
+                      "flag_subcmd_skip is not set to (..)+1 >= 1 together with the backward seek")
         else:
             res.violation("R1.4", key + "|place", c.where(), "backward seek outside the flag-subcommand branch of Parser::parse")
 
